@@ -11,12 +11,12 @@ EXTENDS Integers, Sequences, FiniteSets, TLC, Json
 
 Log == ndJsonDeserialize("trace.ndjson")
 
-VARIABLES l, cfg, npre, nsamp, trig, truth, epoch, prims, checked, conn, cyc, everConn, runA, runB,
+VARIABLES l, cfg, npre, nsamp, trig, truth, epoch, aepoch, oldcov, mxpre, prims, checked, conn, cyc, everConn, runA, runB,
           blocks   \* blocks delivered so far in this run: [first, n, ts] (ts = time stamp of the block's first sample, ns)
-vars == <<l, cfg, npre, nsamp, trig, truth, epoch, prims, checked, conn, cyc, everConn, runA, runB, blocks>>
+vars == <<l, cfg, npre, nsamp, trig, truth, epoch, aepoch, oldcov, mxpre, prims, checked, conn, cyc, everConn, runA, runB, blocks>>
 
 Init == /\ blocks = <<>> /\ l = 1 /\ cfg = [scen |-> 0, nchan |-> 0, run |-> "B"] /\ npre = 0 /\ nsamp = 0 /\ trig = <<>> /\ truth = <<>>
-        /\ epoch = <<>> /\ prims = <<>> /\ checked = <<>> /\ conn = {} /\ cyc = <<>> /\ everConn = FALSE
+        /\ epoch = <<>> /\ aepoch = <<>> /\ oldcov = <<>> /\ mxpre = 0 /\ prims = <<>> /\ checked = <<>> /\ conn = {} /\ cyc = <<>> /\ everConn = FALSE
         /\ runA = <<>> /\ runB = <<>>
 
 Report(preds) == \A p \in preds : PrintT(<<"VIOL", l, p[1], cfg.scen, p[2]>>)
@@ -42,8 +42,12 @@ Sound(c, p) == \/ ~Plain(c)
                \/ trig[c + 1].auto
                \/ (trig[c + 1].edge /\ EdgeCrit(c, p))
                \/ (trig[c + 1].level /\ LevelCrit(c, p))
-Covered(c, p) == p \in prims[c + 1] \/ \E t \in prims[c + 1] : t < p /\ p <= t + nsamp
-Near(c, p) == \E t \in prims[c + 1] : t - nsamp <= p /\ p <= t + nsamp
+\* oldcov: triggers emitted before a change of the record lengths, each with the longer of the two record lengths (the
+\* statement does not say which length the dead time of such a trigger has: either is accepted)
+Covered(c, p) == \/ p \in prims[c + 1] \/ \E t \in prims[c + 1] : t < p /\ p <= t + nsamp
+                 \/ \E x \in oldcov[c + 1] : x[1] <= p /\ p <= x[1] + x[2]
+Near(c, p) == \/ \E t \in prims[c + 1] : t - nsamp <= p /\ p <= t + nsamp
+              \/ \E x \in oldcov[c + 1] : x[1] - x[2] <= p /\ p <= x[1] + x[2]
 AutoD(c) == Max(trig[c + 1].autodelay, nsamp)
 
 \* positions newly decided at the end of this cycle: everything whose record and dead time lie 2 records back
@@ -64,22 +68,24 @@ CyclePreds(e) ==
                  (\E a \in ps : \E b \in ps : a < b /\ b - a > AutoD(c) + nsamp /\ ~\E m \in ps : a < m /\ m < b),
                  "C02_auto_gap", ToString(c))
       \cup WhenD(Plain(c) /\ t.auto /\ t.autoveto = 0 /\
-                 LET last == IF ps = {} THEN epoch[c + 1] ELSE CHOOSE m \in ps : \A k \in ps : k <= m IN
-                 Len(truth[c + 1]) - Max(last, epoch[c + 1]) > AutoD(c) + 2 * nsamp + npre, "C02_auto_gap_tail", ToString(c))
+                 LET last == IF ps = {} THEN aepoch[c + 1] ELSE CHOOSE m \in ps : \A k \in ps : k <= m IN
+                 Len(truth[c + 1]) - Max(last, aepoch[c + 1]) > AutoD(c) + 2 * nsamp + npre, "C02_auto_gap_tail", ToString(c))
     : c \in Chans }
 
 \* From where on completeness is judged in the current epoch: one record after a reconfiguration (triggers emitted under
 \* the old settings may still cast their dead time), but from the very first searchable sample when the settings have been
 \* in force since the start of the stream (fresh start, or settings restored from the saved configuration): there is no
 \* earlier trigger then.
-JudgeFrom(c) == IF epoch[c + 1] = 0 THEN 0 ELSE epoch[c + 1] + nsamp
+\* (the one-record allowance after a reconfiguration in mid-stream is kept in oldcov as a pseudo-trigger at the position
+\* of the reconfiguration, so that a later change of the record lengths cannot shorten it)
+JudgeFrom(c) == 0
 \* completeness is judged with prims' (this cycle's primaries included)
 CompletePreds ==
   UNION {
     LET t == trig[c + 1] IN
-      WhenD(Plain(c) /\ t.edge /\ (\E p \in NewRange(c) : p >= JudgeFrom(c) /\ p >= npre /\ EdgeCrit(c, p)' /\ ~Covered(c, p)'),
+      WhenD(Plain(c) /\ t.edge /\ (\E p \in NewRange(c) : p >= JudgeFrom(c) /\ p >= mxpre /\ EdgeCrit(c, p)' /\ ~Covered(c, p)'),
             "C02_edge_complete", ToString(c))
-      \cup WhenD(Plain(c) /\ t.level /\ (\E p \in NewRange(c) : p >= JudgeFrom(c) /\ p >= npre /\ LevelCrit(c, p)' /\ ~Near(c, p)'),
+      \cup WhenD(Plain(c) /\ t.level /\ (\E p \in NewRange(c) : p >= JudgeFrom(c) /\ p >= mxpre /\ LevelCrit(c, p)' /\ ~Near(c, p)'),
             "C02_level_complete", ToString(c))
     : c \in Chans }
 
@@ -138,7 +144,8 @@ Step ==
   /\ LET e == Log[l] IN
      CASE e.ev = "Config" ->
             /\ cfg' = e /\ npre' = e.npre /\ nsamp' = e.nsamp /\ trig' = e.trig
-            /\ truth' = [c \in 1..e.nchan |-> <<>>] /\ epoch' = [c \in 1..e.nchan |-> 0]
+            /\ truth' = [c \in 1..e.nchan |-> <<>>] /\ epoch' = [c \in 1..e.nchan |-> 0] /\ aepoch' = [c \in 1..e.nchan |-> 0]
+            /\ oldcov' = [c \in 1..e.nchan |-> {}] /\ mxpre' = e.npre
             /\ prims' = [c \in 1..e.nchan |-> {}] /\ checked' = [c \in 1..e.nchan |-> 0]
             /\ conn' = {} /\ cyc' = [c \in 1..e.nchan |-> <<>>] /\ everConn' = FALSE
             /\ runA' = IF e.run = "A" THEN <<>> ELSE runA
@@ -146,13 +153,23 @@ Step ==
        [] e.ev = "Trig" ->
             /\ trig' = [c \in 1..cfg.nchan |-> IF e.ok /\ \E i \in 1..Len(e.chans) : e.chans[i] = c - 1 THEN e.t ELSE trig[c]]
             /\ epoch' = [c \in 1..cfg.nchan |-> IF e.ok /\ \E i \in 1..Len(e.chans) : e.chans[i] = c - 1 THEN Len(truth[c]) ELSE epoch[c]]
+            /\ aepoch' = [c \in 1..cfg.nchan |-> IF e.ok /\ \E i \in 1..Len(e.chans) : e.chans[i] = c - 1 THEN Len(truth[c]) ELSE aepoch[c]]
+            /\ oldcov' = [c \in 1..cfg.nchan |-> IF e.ok /\ Len(truth[c]) > 0 /\ \E i \in 1..Len(e.chans) : e.chans[i] = c - 1
+                                                 THEN oldcov[c] \cup {<<Len(truth[c]), nsamp>>} ELSE oldcov[c]]
+            /\ UNCHANGED mxpre
             /\ prims' = [c \in 1..cfg.nchan |-> IF e.ok /\ \E i \in 1..Len(e.chans) : e.chans[i] = c - 1 THEN {} ELSE prims[c]]
             /\ UNCHANGED <<cfg, npre, nsamp, truth, checked, conn, cyc, everConn, runA, runB>>
        [] e.ev = "Len" ->
             /\ npre' = IF e.ok THEN e.npre ELSE npre
             /\ nsamp' = IF e.ok THEN e.nsamp ELSE nsamp
             /\ LET changed == e.ok /\ (e.npre # npre \/ e.nsamp # nsamp) IN
-               /\ epoch' = [c \in 1..cfg.nchan |-> IF changed THEN Len(truth[c]) + Max(nsamp, e.nsamp) ELSE epoch[c]]
+               \* a change of the record lengths is not an excuse for losing a pulse: the trigger-settings epoch (from which
+               \* completeness is judged) stays; the triggers emitted so far keep a dead time of the longer record length
+               /\ UNCHANGED epoch
+               \* the first samples of the stream were searched (and passed over) with the pre-trigger length of their time
+               /\ mxpre' = IF e.ok THEN Max(mxpre, e.npre) ELSE mxpre
+               /\ aepoch' = [c \in 1..cfg.nchan |-> IF changed THEN Len(truth[c]) + Max(nsamp, e.nsamp) ELSE aepoch[c]]
+               /\ oldcov' = [c \in 1..cfg.nchan |-> IF changed THEN oldcov[c] \cup {<<t, Max(nsamp, e.nsamp)>> : t \in prims[c]} ELSE oldcov[c]]
                /\ prims' = [c \in 1..cfg.nchan |-> IF changed THEN {} ELSE prims[c]]
                \* a change of the record lengths restarts the edge-multi search on the retained history (edges recorded
                \* with the old lengths may be recorded again with the new ones): order and disjointness of the record
@@ -165,29 +182,29 @@ Step ==
             /\ Report(When(RepSet(e) # ConnAfter(e), "C09_set")
                       \cup When(Len(e.rep) # Cardinality(RepSet(e)), "C09_reported"))
             /\ conn' = ConnAfter(e) /\ everConn' = TRUE
-            /\ UNCHANGED <<cfg, npre, nsamp, trig, truth, epoch, prims, checked, cyc, runA, runB>>
+            /\ UNCHANGED <<cfg, npre, nsamp, trig, truth, epoch, aepoch, oldcov, mxpre, prims, checked, cyc, runA, runB>>
        [] e.ev = "Block" ->
             /\ truth' = [c \in 1..cfg.nchan |-> truth[c] \o e.d[c]]
             /\ cyc' = [c \in 1..cfg.nchan |-> <<>>]
-            /\ UNCHANGED <<cfg, npre, nsamp, trig, epoch, prims, checked, conn, everConn, runA, runB>>
+            /\ UNCHANGED <<cfg, npre, nsamp, trig, epoch, aepoch, oldcov, mxpre, prims, checked, conn, everConn, runA, runB>>
        [] e.ev = "Rec" ->
             /\ Report(RecPreds(e))
             /\ cyc' = [cyc EXCEPT ![e.c + 1] = Append(cyc[e.c + 1], e.f)]
             /\ runA' = IF cfg.run = "A" THEN Append(runA, RecTuple(e)) ELSE runA
             /\ runB' = IF cfg.run = "B" THEN Append(runB, RecTuple(e)) ELSE runB
-            /\ UNCHANGED <<cfg, npre, nsamp, trig, truth, epoch, prims, checked, conn, everConn>>
+            /\ UNCHANGED <<cfg, npre, nsamp, trig, truth, epoch, aepoch, oldcov, mxpre, prims, checked, conn, everConn>>
        [] e.ev = "Cycle" ->
             /\ prims' = [c \in 1..cfg.nchan |-> prims[c] \cup {e.prim[c][i] : i \in 1..Len(e.prim[c])}]
             /\ checked' = [c \in 1..cfg.nchan |-> Max(checked[c], Decided(c - 1))]
-            /\ UNCHANGED <<cfg, npre, nsamp, trig, truth, epoch, conn, cyc, everConn, runA, runB>>
+            /\ UNCHANGED <<cfg, npre, nsamp, trig, truth, epoch, aepoch, oldcov, mxpre, conn, cyc, everConn, runA, runB>>
             /\ Report(CyclePreds(e) \cup (IF e.crashed THEN {} ELSE BagPreds(e)) \cup CompletePreds)
        [] e.ev = "Panic" ->
             /\ Report({<<"C01_nocrash", e.where>>} \cup WhenD(AnyEM, "C08_nocrash", e.where) \cup WhenD(everConn, "C09_nocrash", e.where))
-            /\ UNCHANGED <<cfg, npre, nsamp, trig, truth, epoch, prims, checked, conn, cyc, everConn, runA, runB>>
+            /\ UNCHANGED <<cfg, npre, nsamp, trig, truth, epoch, aepoch, oldcov, mxpre, prims, checked, conn, cyc, everConn, runA, runB>>
        [] e.ev = "End" ->
             /\ Report((IF AnyEM THEN EMPreds(IF e.run = "A" THEN runA ELSE runB) ELSE {})
                       \cup When(e.run = "B" /\ cfg.oneblock /\ \E c \in Chans : ChanRecs(runA, c) # ChanRecs(runB, c), "C08_independent"))
-            /\ UNCHANGED <<cfg, npre, nsamp, trig, truth, epoch, prims, checked, conn, cyc, everConn, runA, runB>>
+            /\ UNCHANGED <<cfg, npre, nsamp, trig, truth, epoch, aepoch, oldcov, mxpre, prims, checked, conn, cyc, everConn, runA, runB>>
 
 Spec == Init /\ [][Step]_vars
 NScen == Cardinality({i \in 1..Len(Log) : Log[i].ev = "Config"})
